@@ -419,6 +419,15 @@ func buildReal(c *Case) (rp *realProg, defPanic string) {
 			g.ArgCompletions(op.L...)
 		case "argfn":
 			g.ArgCompletionsFns(argFnFixed(op.N))
+		case "probe":
+			switch op.N {
+			case 0:
+				_ = g.Help()
+			case 1:
+				_ = g.Help(getoptions.HelpSynopsis)
+			default:
+				_ = g.Help(getoptions.HelpOptionList, getoptions.HelpCommandList)
+			}
 		case "synarg":
 			g.HelpSynopsisArg(op.Name, op.Desc)
 		case "self":
